@@ -557,7 +557,11 @@ def run_cases(ctx, comp, exe, cases, count=True):
                     if comp.nontrivial(case):
                         ctx.cov["distinct_nontrivial"] += 1
                 if comp.classify:
-                    for tag in comp.classify(case, io.get(i, [])):
+                    try:
+                        tags = list(comp.classify(case, io.get(i, [])))
+                    except Exception:       # a crashed/garbled answer line must not stop the verdict
+                        tags = ["classify-error"]
+                    for tag in tags:
                         d = ctx.cov["distribution"]
                         d[tag] = d.get(tag, 0) + 1
             if i in mc:
@@ -764,7 +768,7 @@ def finish(ctx, level="proof", prop_modules=(), explanation=None):
 
 
 def standard_check(ctx, prop_modules, components, level="proof", assumptions=(), trusted=(),
-                   explanation=None):
+                   explanation=None, extra_run=None):
     ctx.assumptions += list(assumptions)
     ctx.trusted += list(trusted)
     proof_audit(ctx, prop_modules)
@@ -775,6 +779,8 @@ def standard_check(ctx, prop_modules, components, level="proof", assumptions=(),
             # broken proof: enlarge the search
             fails += check_component(ctx, comp, budget_mult=10)
         process_failures(ctx, comp, fails)
+    if extra_run:
+        extra_run(ctx)      # components with their own flow (e.g. the allocation-failure sweeps of C14)
     return finish(ctx, level, prop_modules, explanation)
 
 
